@@ -34,6 +34,12 @@ def pLayouts : P (List (Layout F)) := fun ts =>
 def lenPx : LPA F → Option Rat
   | .length v => toRat v
   | _ => none
+/-- a margin in px: a length, or a percentage of the width of the containing block (CSS 2.1 §8.3: also for the top and bottom
+margins), the containing block being the parent's content box as the implementation reports it (`cbw`; `none` at the root) -/
+def marginPx (cbw : Option Rat) : LPA F → Option Rat
+  | .length v => toRat v
+  | .percent p => do let w ← cbw; let q ← toRat p; pure (w * q)
+  | _ => none
 def lpPx : LP F → Option Rat
   | .length v => toRat v
   | _ => none
@@ -55,7 +61,7 @@ def need {β : Type} (what : String) (o : Option β) : R β :=
   | none => .error what
 
 /-- the box of one node: style (with the family's restrictions checked), content, layout -/
-def boxOf (s : Style F) (ctx : Option (MeasureSpec F)) (leaf : Bool) (l : Layout F) : R Box := do
+def boxOf (cbw : Option Rat) (s : Style F) (ctx : Option (MeasureSpec F)) (leaf : Bool) (l : Layout F) : R Box := do
   if s.boxSizing != .borderBox then throw "box-sizing"
   if s.overflow.x != .visible || s.overflow.y != .visible then throw "overflow"
   if s.aspectRatio.isSome then throw "aspect-ratio"
@@ -74,10 +80,10 @@ def boxOf (s : Style F) (ctx : Option (MeasureSpec F)) (leaf : Bool) (l : Layout
     kind := if s.display == .flex || s.display == .grid then .other else .block
     hidden := s.display == .none
     absolute := s.position == .absolute
-    marginTop := ← need "margin" (lenPx s.margin.top)
-    marginBottom := ← need "margin" (lenPx s.margin.bottom)
-    marginLeft := ← need "margin" (lenPx s.margin.left)
-    marginRight := ← need "margin" (lenPx s.margin.right)
+    marginTop := ← need "margin" (marginPx cbw s.margin.top)
+    marginBottom := ← need "margin" (marginPx cbw s.margin.bottom)
+    marginLeft := ← need "margin" (marginPx cbw s.margin.left)
+    marginRight := ← need "margin" (marginPx cbw s.margin.right)
     paddingTop := ← need "padding" (lpPx s.padding.top)
     paddingBottom := ← need "padding" (lpPx s.padding.bottom)
     paddingLeft := ← need "padding" (lpPx s.padding.left)
@@ -99,23 +105,28 @@ def hasInFlow (kids : List Tree) : Bool := kids.any fun c => c.box.inFlow
 
 mutual
 /-- zip the style tree with the preorder layouts.  `root`: the node is the root (may be a flex/grid wrapper) -/
-def build (root : Bool) : STree F → List (Layout F) → R (Tree × List (Layout F))
+def build (root : Bool) (cbw : Option Rat) : STree F → List (Layout F) → R (Tree × List (Layout F))
   | .node s ctx kids, ls => do
     match ls with
     | [] => throw "layouts"
     | l :: ls =>
-      let b ← boxOf s ctx kids.isEmpty l
+      let b ← boxOf cbw s ctx kids.isEmpty l
       if b.kind == .other && !root then throw "flex-or-grid-below-root"
-      let (ks, ls) ← buildKids kids ls
+      -- the containing block of the children: this box's content box, from its reported width.  The family only uses
+      -- percentages below a box whose content box and border box have the same width (no horizontal padding / border), so
+      -- that the reference width is not in question (taffy resolves a block child's margin percentages against the
+      -- container's border-box width; CSS 2.1 §8.3 says content box — recorded as an observation in DESIGN.md, not judged here)
+      let hInset := b.paddingLeft + b.paddingRight + b.borderLeft + b.borderRight
+      let (ks, ls) ← buildKids (if hInset == 0 then some b.w else none) kids ls
       -- (A) `min-height` on a box with in-flow children; (B) `height: 0` around children that all collapse through
       if !b.hidden && b.minHeight != 0 && hasInFlow ks then throw "A:min-height-with-in-flow-children"
       if !b.hidden && b.height == some 0 && hasInFlow ks && collapsesThrough (.node b ks) then throw "B:height-0-around-collapsed-children"
       pure (.node b ks, ls)
-def buildKids : List (STree F) → List (Layout F) → R (List Tree × List (Layout F))
+def buildKids (cbw : Option Rat) : List (STree F) → List (Layout F) → R (List Tree × List (Layout F))
   | [], ls => pure ([], ls)
   | c :: rest, ls => do
-    let (t, ls) ← build false c ls
-    let (ts, ls) ← buildKids rest ls
+    let (t, ls) ← build false cbw c ls
+    let (ts, ls) ← buildKids cbw rest ls
     pure (t :: ts, ls)
 end
 
@@ -127,7 +138,7 @@ def parse (ws : List String) : R Tree := do
     let (st, ts) ← need "parse-tree" (pTree treeFuel rest)
     let (ls, ts) ← need "parse-layouts" (pLayouts ts)
     if !ts.isEmpty then throw "trailing-tokens"
-    let (t, ls) ← build true st ls
+    let (t, ls) ← build true none st ls
     if !ls.isEmpty then throw "layout-count"
     pure t
   | _ => throw "parse"
